@@ -29,14 +29,17 @@ AllTargets ==
 
 Targets == IF Slim THEN SlimTargets ELSE AllTargets
 
-X86Types == {"i8", "u16", "i32", "i64", "u64", "f32", "f64", "f32x4", "i32x4", "f64x4", "f32x16", "i32x2", "mmx64", "k16"}
-A64Types == {"i8", "u16", "i32", "i64", "f32", "f64", "f32x4", "i8x16", "i32x2", "f32x2", "i8x4"}
-ReducedTypes == {"i32", "i64", "f32", "f64", "f32x4", "i8"}
-TypesOf(env) == IF Reduced THEN ReducedTypes ELSE IF env \in {"a64-aapcs", "a64-apple"} THEN A64Types ELSE X86Types
+X86Types == IF Slim THEN {"i8", "i32", "i64", "f32", "f64", "f32x4", "f64x4", "mmx64", "k16"}
+            ELSE {"i8", "u16", "i32", "i64", "u64", "f32", "f64", "f32x4", "i32x4", "f64x4", "f32x16", "i32x2", "mmx64", "k16"}
+A64Types == IF Slim THEN {"i8", "i32", "i64", "f32", "f64", "f32x4", "i32x2"}
+            ELSE {"i8", "u16", "i32", "i64", "f32", "f64", "f32x4", "i8x16", "i32x2", "f32x2", "i8x4"}
+ReducedTypes == IF Slim THEN {"i32", "i64", "f32", "f64", "f32x4"} ELSE {"i32", "i64", "f32", "f64", "f32x4", "i8"}
+(* Reduced = "no" | "yes" | "both": "yes" = no prefixes, fewer types, one more argument *)
+TypesOfR(env, red) == IF red THEN ReducedTypes ELSE IF env \in {"a64-aapcs", "a64-apple"} THEN A64Types ELSE X86Types
 Rep(t, k) == [q \in 1..k |-> t]
 (* prefixes that fill the register files (and the positional slots) so that the enumerated suffix lands on the stack *)
-Prefixes(env) ==
-  IF Reduced \/ Long THEN { <<>> }
+Prefixes(env, red) ==
+  IF red \/ Long THEN { <<>> }
   ELSE IF env \in {"x64-sysv", "x64-win"}
        THEN (IF Slim THEN { <<>>, Rep("i64", 4), Rep("i64", 6) \o Rep("f64", 8), Rep("f32", 9) }
              ELSE { <<>>, Rep("i64", 4), Rep("i64", 6), Rep("f64", 8), Rep("i64", 6) \o Rep("f64", 8), Rep("f32", 9) })
@@ -44,33 +47,34 @@ Prefixes(env) ==
   ELSE (IF Slim THEN { <<>>, Rep("i64", 8) \o Rep("f64", 8), Rep("i32", 9) }
         ELSE { <<>>, Rep("i64", 8), Rep("f64", 8), Rep("i64", 8) \o Rep("f64", 8), Rep("i32", 9) })
 
-RetTypes(env) == TypesOf(env) \cup {"u8", "i16", "u32", "f64x2", "f32x8"}
+RetTypes(env) == TypesOfR(env, FALSE) \cup {"u8", "i16", "u32", "f64x2", "f32x8"}
 
 Themes == [ ints |-> {"i32", "i64", "i8"}, fps |-> {"f32", "f64"}, vecs |-> {"f32x4", "f64", "i64"},
             odd |-> {"f32", "i32", "f32x4", "i64", "i16"}, wide |-> {"f64x4", "f32", "i32", "f32x16"},
             small |-> {"i8", "u16", "f32", "i32x2"} ]
 ThemeNames == DOMAIN Themes
 
-VARIABLES tgt, args, va, ret, theme, k
-vars == <<tgt, args, va, ret, theme, k>>
+VARIABLES tgt, args, va, ret, theme, k, red
+vars == <<tgt, args, va, ret, theme, k, red>>
 
 VaChoices(env) == IF env = "a64-apple" THEN {255, 0, 1, 2, 9} ELSE {255, 1}
 
 Init == /\ tgt \in Targets
-        /\ args \in Prefixes(tgt[1])
+        /\ red \in (IF Reduced = "both" THEN {TRUE, FALSE} ELSE {Reduced = "yes"})
+        /\ args \in Prefixes(tgt[1], red)
         /\ k = 0
         /\ va \in VaChoices(tgt[1])
-        /\ ret \in (IF Long THEN {"void"} ELSE {"void"} \cup RetTypes(tgt[1]))
+        /\ ret \in (IF Long \/ red THEN {"void"} ELSE {"void"} \cup RetTypes(tgt[1]))
         /\ theme \in (IF Long THEN ThemeNames ELSE {"ints"})
         /\ (ret # "void" => va = 255)
 
-Allowed == IF Long THEN Themes[theme] \cap (TypesOf(tgt[1]) \cup {"i16", "f32x16", "f64x4"}) ELSE TypesOf(tgt[1])
+Allowed == IF Long THEN Themes[theme] \cap (TypesOfR(tgt[1], FALSE) \cup {"i16", "f32x16", "f64x4", "u16", "i32x2"}) ELSE TypesOfR(tgt[1], red)
 
-Next == /\ k < MaxArgs
+Next == /\ k < (IF red THEN MaxArgs + 1 ELSE MaxArgs)
         /\ ret = "void"
         /\ \E t \in Allowed : args' = Append(args, t)
         /\ k' = k + 1
-        /\ UNCHANGED <<tgt, va, ret, theme>>
+        /\ UNCHANGED <<tgt, va, ret, theme, red>>
 Spec == Init /\ [][Next]_vars
 
 Emit == (va = 255 \/ va <= Len(args)) /\ (Long => Len(args) >= 5)
